@@ -248,6 +248,14 @@ where
     }
 }
 
+#[cfg(feature = "verif")]
+impl<Req, Resp, T> BaseChannel<Req, Resp, T> {
+    /// Verification hook: lengths of the in-flight request table and of its timer queue.
+    pub fn verif_in_flight(&self) -> crate::verif::Lens {
+        self.in_flight_requests.verif_lens()
+    }
+}
+
 impl<Req, Resp, T> fmt::Debug for BaseChannel<Req, Resp, T> {
     fn fmt(&self, f: &mut fmt::Formatter<'_>) -> fmt::Result {
         write!(f, "BaseChannel")
